@@ -23,6 +23,8 @@ def run(ctx):
     simrules.repeated_key_map_rule(ctx, 'C09.k')
     simrules.homogeneous_moment_predicate_rule(ctx, 'C09.l')
     simrules.configured_duration_first_rule(ctx, 'C09.m')
+    from . import shared as _sh
+    _sh.dimension_aware_sizing_rule(ctx, 'C09.n', ['cirq-core/cirq/'], floor=2)
     ctx.decided.append('C09.k a noise model that sets measurements aside by key keeps every measurement of a repeated key')
     ctx.decided.append('C09.i noise models reduce over the operations of a moment order-independently (e.g. the moment duration is the running maximum of the gate durations)')
     ctx.decided.append('C09.h final_density_matrix applies the noise model to the circuit as written, before measurements are deferred, and not again afterwards')
